@@ -423,11 +423,26 @@ func generateOTP(secret string, counter uint64, digits otp.Digits, algo otp.Algo
 // registerFunctions registers all Go functions with JavaScript.
 func registerFunctions() {
 	log("Registering functions with JavaScript")
-	js.Global().Set("generateHOTP", js.FuncOf(generateHOTP))
-	js.Global().Set("generateTOTP", js.FuncOf(generateTOTP))
-	js.Global().Set("validateHOTP", js.FuncOf(validateHOTP))
-	js.Global().Set("validateTOTP", js.FuncOf(validateTOTP))
-	js.Global().Set("generateOTPURL", js.FuncOf(generateOTPURL))
+	js.Global().Set("generateHOTP", js.FuncOf(guard(generateHOTP)))
+	js.Global().Set("generateTOTP", js.FuncOf(guard(generateTOTP)))
+	js.Global().Set("validateHOTP", js.FuncOf(guard(validateHOTP)))
+	js.Global().Set("validateTOTP", js.FuncOf(guard(validateTOTP)))
+	js.Global().Set("generateOTPURL", js.FuncOf(guard(generateOTPURL)))
+}
+
+// guard turns a panic inside a callback (e.g. syscall/js rejecting an argument
+// it cannot represent, such as a BigInt) into an "error: ..." result, so that a
+// bad call cannot terminate the Go program and with it the whole module.
+func guard(fn func(js.Value, []js.Value) any) func(js.Value, []js.Value) any {
+	return func(this js.Value, args []js.Value) (result any) {
+		defer func() {
+			if r := recover(); r != nil {
+				log(fmt.Sprintf("recovered: %v", r))
+				result = js.ValueOf(fmt.Sprintf("error: %v", r))
+			}
+		}()
+		return fn(this, args)
+	}
 }
 
 func main() {
